@@ -10,11 +10,13 @@ CLAIMS = {
              "the readiness set (join/try_join array+Vec and tuple variants, merge, zip), every n, all child scripts and all "
              "operation histories, the selective-polling monitor holds on the model's trace (invariant: a set readiness bit is "
              "justified by a non-Pending last result or a sub-waker fire since the child's last poll; proved once for every "
-             "'lawful' policy, lawfulness proved per family). FutureGroup/StreamGroup are covered by the same monitor evaluated "
-             "on the real traces and by trace equality with the group model, not yet by theorem (C16_statement keeps the full "
-             "statement). The check re-proves, rebuilds the std harness, runs thousands of cases on the real code, diffs the "
+             "'lawful' policy, lawfulness proved per family). Theorem C16_selective_group (FcProps/C16g.lean): the same monitor "
+             "for FutureGroup and StreamGroup over every history of insert/remove/reserve/extend/poll/fire/drop with fresh member "
+             "ids (Case.insertsFresh: every inserted future is a new object), incl. slot reuse (a stale sub-waker of the slot's "
+             "previous occupant may justify the poll - the property's 'earlier member that held the same key' clause) and growth "
+             "(resize arms only slots that hold no member). The check re-proves, rebuilds the std harness, runs thousands of cases on the real code, diffs the "
              "C16 projection (child polls, results, fires) against the model and evaluates the monitor on the real trace.",
-        note=TB + " Groups: correspondence + monitor on real traces only (no theorem yet).",
+        note=TB,
         design_ref="DESIGN.md §7 C16, Appendix A (invariant K)"),
 }
 
@@ -28,9 +30,12 @@ CLAIMS["C01"] = dict(
          "outcome Pending, an owed wake-up implies the latest task waker was woken; no waker invocation panics; a poll "
          "unwinds only if a child panicked. Proof: kernel invariants (exact ready count, owes => bit, bit of a visited "
          "waiting child => woken, parent waker = current task waker) by induction over the scan and the operation list, "
-         "once for every 'Conc' policy. chain, wait_until and the groups are covered by the same monitor on real traces + "
-         "trace equality with their models, not yet by theorem; nesting is exercised by the harness only.",
-    note=TB + " Not by theorem yet: chain, wait_until, FutureGroup, StreamGroup, one level of nesting.",
+         "once for every 'Conc' policy. Theorem C01_no_lost_wake_seq (FcProps/C01seq.lean): the same monitor for the "
+         "sequential pass-through families chain, wait_until (future and stream), all n, scripts and histories (invariant: at "
+         "most one child is waiting, it is the head of the next scan and was polled with the current task waker). The groups "
+         "are covered by the same monitor on real traces + trace equality with their model, not yet by theorem; nesting is "
+         "exercised by the harness only.",
+    note=TB + " Not by theorem yet: FutureGroup, StreamGroup, one level of nesting.",
     design_ref="DESIGN.md §7 C01, Appendix A")
 
 CLAIMS["C20"] = dict(
@@ -170,15 +175,17 @@ CLAIMS["C02"] = dict(
          "exactly one childDropped event, none after dropEnd; for every value v, (#times returned to the caller) + (#times "
          "dropped by the combinator) = (#times produced by a child); nothing is returned or dropped that no child produced. "
          "Proof: step invariant relating the PollState table / buffered slots to the multiset accounting (Sim), indexed by "
-         "the number of completed drops. FutureGroup, StreamGroup: the same monitor is evaluated on every real trace and the "
-         "traces are compared with the group model, no theorem yet; concurrent-stream drivers: see C13/C14 when claimed. "
+         "the number of completed drops. Theorem C02_exactly_once_group (FcProps/C02g.lean): the same for FutureGroup and StreamGroup over "
+         "every history of insert/remove/reserve/extend/poll/fire/drop with fresh members: every inserted member is released "
+         "exactly once - when it finishes, at removal, or with the group - ids never inserted are never released, and the "
+         "value accounting holds. Concurrent-stream drivers: see C13/C14 when claimed. "
          "The check re-proves, rebuilds the harness in std/alloc/no_std, runs all families with drop points uniform over "
          "the history and injected panics (profile `panic`), diffs the ownership projection (returns, child results, child "
          "and value drops, drop begin/end) against the model and evaluates holds_C02 on the real traces.",
     note=TB + " The model's history alphabet allows a second `drop` operation, which Rust's ownership rules out; the "
          "theorems assume at most one drop op for the families whose children are plain fields. Memory effects of a wrong "
          "bookkeeping (UB) are outside the model: the model shows the bookkeeping never asks for a second drop or reads an "
-         "unwritten slot; the harness observes real drops. Groups and co-stream drivers: correspondence + monitor only.",
+         "unwritten slot; the harness observes real drops. Co-stream drivers: not covered here.",
     design_ref="DESIGN.md §7 C02, Appendix A (slot invariant S)")
 
 CLAIMS["C03"] = dict(
@@ -190,15 +197,46 @@ CLAIMS["C03"] = dict(
          "model trace: every child poll happens inside a top-level poll of a combinator that is alive and has not yet "
          "produced its final result (Ready / None) and is aimed at a child that has neither finished (Ready / None) nor "
          "been released. Proof: one generic Sim instance from a record of state-only obligations (Disc) discharged per "
-         "family. FutureGroup/StreamGroup (insert/remove/reserve/extend poll nothing; removed members are never polled): "
-         "the same monitor is evaluated on every real group trace and traces are compared with the group model; no "
-         "theorem yet. Concurrent-stream source: see C13-C15 when claimed. The check re-proves, rebuilds the harness in "
+         "family. Theorem C03_discipline_group (FcProps/C03g.lean): the same monitor for FutureGroup/StreamGroup over "
+         "every history of insert/remove/reserve/extend/queries/poll/fire/drop with fresh members of the right kind: "
+         "inserting, removing, reserving, extending and dropping poll nothing, a removed or finished member is never polled "
+         "again, members are polled only inside a poll of the live group (None is not final for a group: it can be refilled). Concurrent-stream source: see C13-C15 when claimed. The check re-proves, rebuilds the harness in "
          "the three builds, runs all families, diffs the projection against the model and evaluates holds_C03 on the "
          "real traces.",
-    note=TB + " Groups: correspondence + monitor on real traces only.",
-    design_ref="DESIGN.md §7 C03")
+    note=TB, design_ref="DESIGN.md §7 C03")
+
+CLAIMS["C11"] = dict(
+    text="Theorem C11_future_group (FcProps/C11.lean): for the FutureGroup model incl. the slab key discipline "
+         "(slab 0.4.12: next / vacant chain), plain and keyed views, both waker strategies, every history over "
+         "{insert, remove(any key ever returned, incl. stale ones), reserve, extend, len/is_empty/contains_key/capacity "
+         "queries, poll, fire, drop} with fresh members of the right kind: holds_C11 holds on the model trace - insert "
+         "returns a key no live member holds; remove(k) answers whether a member lives under k and that member is released "
+         "at once; a member is polled only while it lives under the key it is polled at; a poll answers Some(key, v) exactly "
+         "for the output v a member produced during this poll, paired (keyed view) with the key its insert returned, and "
+         "nothing is polled afterwards in that poll; the sequence of yielded values equals the sequence of outputs the "
+         "members produced (each exactly once); a finished member is released in the poll in which it finished; len = "
+         "inserts - removals - completions, is_empty and contains_key agree with it, capacity >= len; None exactly when no "
+         "member lives (then the group can be refilled), Pending only while one lives and none delivered in this poll. "
+         "The check re-proves, rebuilds the harness (std, alloc), runs random group histories incl. growth across capacity "
+         "boundaries, slot reuse, stale keys, refill after None, diffs the group projection (polls, child polls, inserts, "
+         "removes, answers, drops) against the model and evaluates holds_C11 on the real traces; a panic inside a group "
+         "operation is a violation.",
+    note=TB + " slab itself is modelled (key discipline) not verified; the harness mirrors slab's key assignment to label "
+         "members inserted through extend.",
+    design_ref="DESIGN.md §7 C11")
+
+CLAIMS["C12"] = dict(
+    text="Theorem C12_stream_group (FcProps/C12.lean): the same as C11 for StreamGroup (one proof, generic in the "
+         "`stream` flag): holds_C12 holds on the model trace for every history - every item a member produces is yielded "
+         "by the poll that took it, tagged (keyed view) with the member's key, nothing else is polled in that poll; the "
+         "sequence of yielded values equals the sequence of produced items (every item exactly once, each member's order "
+         "kept); a member that returns None is released and forgotten in that very poll (several may end in one poll: "
+         "key_removal_queue) and never polled again; removed members likewise; len/is_empty/contains_key exact; None "
+         "exactly when no member remains at the end of the poll (the done_count == stream_count rule), after which the "
+         "group can be refilled. Check as for C11 with stream members.",
+    note=TB + " slab modelled not verified.", design_ref="DESIGN.md §7 C12")
 
 PENDING = "theorem not yet proved in this revision; the property is exercised by the shared correspondence runs but not claimed"
 NOT_APPLICABLE = {p: PENDING for p in
-                  ["C11", "C12", "C13", "C14",
+                  ["C13", "C14",
                    "C15", "C18"]}
